@@ -71,6 +71,15 @@ prop("C20", [
     dict(POOL_B, checks=["sql_metrics", "sql_list"]),
 ], level="exploration", explanation="gauge query and lease listing query against the row set, bounded exhaustive on real SQLite")
 
+prop("C02", [
+    dict(engine="verus", unit="dhcpranges"),
+    dict(engine="verus", unit="pool", fns=["Pool::select_requested_address", "Pool::select_new_address", "Pool::select_address", "Pool::allocate_address"]),
+    dict(engine="kani", sets=["net_subnet"]),
+    dict(POOL_B, checks=["allocate_address/C02"]),
+], explanation="pool membership before every grant (allocate_address ensures), apply-subnet expansion == every host address, default addresses pool == hosts minus server minus used",
+    assumptions=["apply-range (RangeInclusive loop) NOT decided: no ghost-iterator spec in this vstd, unreachable for Kani", "YAML text -> values (yaml-rust) not under contract",
+                 "the address arithmetic base == network() and get_or_insert_with glue around the slices is assumed (slice preconditions)"])
+
 prop("C03", [
     dict(engine="verus", unit="dnsreply", fns=["DnsListenerHandler::create_in_reply"]),
     dict(engine="verus", unit="dnsser", fns=["push_rr", "push_u16", "push_u32", "push_label", "push_str"]),
